@@ -9,25 +9,25 @@ import (
 // that the generated perturbation plans draw from. TestC09Sites checks that the
 // list still matches the instrumented sources.
 var planSites = []string{
-	"guard:StartTreasureGuard:1:Lock", "guard:StartTreasureGuard:2:atomic.AddInt64", "guard:StartTreasureGuard:3:Wait", "guard:StartTreasureGuard:4:atomic.AddInt64",
-	"guard:ReleaseTreasureGuard:1:Lock", "guard:ReleaseTreasureGuard:2:Unlock", "guard:ReleaseTreasureGuard:3:Broadcast",
-	"guard:CanExecute:1:Lock",
-	"swamp:IncrementUint8:1:StartTreasureGuard", "swamp:IncrementInt64:1:StartTreasureGuard", "swamp:IncrementFloat64:1:StartTreasureGuard",
-	"swamp:CreateTreasure:1:Lock", "swamp:CreateTreasure:2:Load", "swamp:CreateTreasure:3:StartTreasureGuard", "swamp:CreateTreasure:4:ReleaseTreasureGuard", "swamp:CreateTreasure:5:Store",
-	"swamp:SaveFunction:1:atomic.StoreInt64", "swamp:SaveFunction:2:Delete", "swamp:SaveFunction:3:Add", "swamp:SaveFunction:4:Add", "swamp:SaveFunction:5:Delete",
-	"swamp:SaveFunction:6:RLock", "swamp:SaveFunction:7:RUnlock", "swamp:SaveFunction:8:ReleaseTreasureGuard", "swamp:SaveFunction:9:Add", "swamp:SaveFunction:10:RLock",
-	"swamp:SaveFunction:11:RUnlock", "swamp:SaveFunction:12:ReleaseTreasureGuard",
-	"swamp:GetTreasure:1:atomic.StoreInt64", "swamp:GetAll:1:atomic.StoreInt64", "swamp:CountTreasures:1:atomic.StoreInt64",
-	"swamp:DeleteTreasure:1:atomic.StoreInt64", "swamp:CloneAndDeleteTreasuresByKeys:1:atomic.StoreInt64",
-	"swamp:CloneAndDeleteTreasuresByKeys:2:StartTreasureGuard", "swamp:CloneAndDeleteTreasuresByKeys:3:ReleaseTreasureGuard",
-	"swamp:TreasureExists:1:atomic.StoreInt64",
-	"swamp:fileWriterHandler:1:Lock", "swamp:fileWriterHandler:2:atomic.LoadInt32", "swamp:fileWriterHandler:3:atomic.StoreInt32", "swamp:fileWriterHandler:4:atomic.StoreInt32", "swamp:fileWriterHandler:5:Delete",
-	"swamp:deleteHandler:1:StartTreasureGuard", "swamp:deleteHandler:2:Delete", "swamp:deleteHandler:3:Add", "swamp:deleteHandler:4:Delete",
-	"swamp_patch:PatchFields:1:StartTreasureGuard", "swamp_patch:PatchFields:2:Delete",
-	"gateway:Set:1:Load", "gateway:Set:2:BeginVigil", "gateway:Set:3:StartTreasureGuard", "gateway:Get:1:Load", "gateway:Get:2:BeginVigil",
-	"gateway:GetAll:1:BeginVigil", "gateway:ShiftByKeys:1:BeginVigil", "gateway:Delete:1:BeginVigil",
-	"beacon:GetAll:1:RLock", "beacon:Get:1:atomic.StoreInt32", "beacon:Get:2:RLock", "beacon:PushManyFromMap:1:Lock", "beacon:Add:1:atomic.StoreInt32", "beacon:Add:2:Lock",
-	"beacon:Delete:1:atomic.StoreInt32", "beacon:Delete:2:Lock", "beacon:IsExists:1:atomic.StoreInt32", "beacon:IsExists:2:RLock", "beacon:Count:1:atomic.StoreInt32", "beacon:Count:2:RLock",
+	"guard:StartTreasureGuard:Lock:b59f6c", "guard:StartTreasureGuard:atomic.AddInt64:d2989b", "guard:StartTreasureGuard:Wait:6a3259", "guard:StartTreasureGuard:atomic.AddInt64:d2989b~2",
+	"guard:ReleaseTreasureGuard:Lock:b59f6c", "guard:ReleaseTreasureGuard:Unlock:68f18d", "guard:ReleaseTreasureGuard:Broadcast:f2434b",
+	"guard:CanExecute:Lock:b59f6c",
+	"swamp:IncrementUint8:StartTreasureGuard:f4a9b0", "swamp:IncrementInt64:StartTreasureGuard:f4a9b0", "swamp:IncrementFloat64:StartTreasureGuard:f4a9b0",
+	"swamp:CreateTreasure:Lock:678d26", "swamp:CreateTreasure:Load:11fb0d", "swamp:CreateTreasure:StartTreasureGuard:064d1c", "swamp:CreateTreasure:ReleaseTreasureGuard:be803b", "swamp:CreateTreasure:Store:98e79a",
+	"swamp:SaveFunction:atomic.StoreInt64:1cc3f1", "swamp:SaveFunction:Delete:8d391f", "swamp:SaveFunction:Add:f5250f", "swamp:SaveFunction:Add:2d20c0", "swamp:SaveFunction:Delete:783c17",
+	"swamp:SaveFunction:RLock:a07071", "swamp:SaveFunction:RUnlock:a71ce7", "swamp:SaveFunction:ReleaseTreasureGuard:be803b", "swamp:SaveFunction:Add:f5250f~2", "swamp:SaveFunction:RLock:a07071~2",
+	"swamp:SaveFunction:RUnlock:a71ce7~2", "swamp:SaveFunction:ReleaseTreasureGuard:be803b~2",
+	"swamp:GetTreasure:atomic.StoreInt64:1cc3f1", "swamp:GetAll:atomic.StoreInt64:1cc3f1", "swamp:CountTreasures:atomic.StoreInt64:1cc3f1",
+	"swamp:DeleteTreasure:atomic.StoreInt64:1cc3f1", "swamp:CloneAndDeleteTreasuresByKeys:atomic.StoreInt64:1cc3f1",
+	"swamp:CloneAndDeleteTreasuresByKeys:StartTreasureGuard:fa71ce", "swamp:CloneAndDeleteTreasuresByKeys:ReleaseTreasureGuard:51890f",
+	"swamp:TreasureExists:atomic.StoreInt64:1cc3f1",
+	"swamp:fileWriterHandler:Lock:45b511", "swamp:fileWriterHandler:atomic.LoadInt32:e08ffc", "swamp:fileWriterHandler:atomic.StoreInt32:f55fb6", "swamp:fileWriterHandler:atomic.StoreInt32:f55fb6~2", "swamp:fileWriterHandler:Delete:8d391f",
+	"swamp:deleteHandler:StartTreasureGuard:ac9b2b", "swamp:deleteHandler:Delete:8cd4c9", "swamp:deleteHandler:Add:d3b37d", "swamp:deleteHandler:Delete:cfa69e",
+	"swamp_patch:PatchFields:StartTreasureGuard:f4a9b0", "swamp_patch:PatchFields:Delete:240e62",
+	"gateway:Set:Load:10b549", "gateway:Set:BeginVigil:3b19eb", "gateway:Set:StartTreasureGuard:490611", "gateway:Get:Load:10b549", "gateway:Get:BeginVigil:3b19eb",
+	"gateway:GetAll:BeginVigil:3b19eb", "gateway:ShiftByKeys:BeginVigil:3b19eb", "gateway:Delete:BeginVigil:3b19eb",
+	"beacon:GetAll:RLock:554baa", "beacon:Get:atomic.StoreInt32:b20a54", "beacon:Get:RLock:554baa", "beacon:PushManyFromMap:Lock:e380a5", "beacon:Add:atomic.StoreInt32:b20a54", "beacon:Add:Lock:e380a5",
+	"beacon:Delete:atomic.StoreInt32:b20a54", "beacon:Delete:Lock:e380a5", "beacon:IsExists:atomic.StoreInt32:b20a54", "beacon:IsExists:RLock:554baa", "beacon:Count:atomic.StoreInt32:b20a54", "beacon:Count:RLock:554baa",
 }
 
 // GenCfg steers the program generator. The exclusion flags are switched on by
